@@ -166,6 +166,35 @@ func repoBusy(gs []G) bool {
 	return false
 }
 
+// movingSummary names (state and innermost repository frame) the goroutines that
+// repoBusy / callsUnsettled consider still moving; for watchdog diagnostics.
+func movingSummary(gs []G) string {
+	var out []string
+	for _, g := range gs {
+		if !(g.Has("AliceO2Group/Control/core/environment.") || g.Has("AliceO2Group/Control/core/workflow/callable.")) {
+			continue
+		}
+		if g.Blocked() && !(g.Has(fnCallCall) && !g.Has(fnWaitGate)) {
+			continue
+		}
+		frame := ""
+		for _, ln := range strings.Split(g.Text, "\n") {
+			if strings.Contains(ln, "AliceO2Group/Control/") && !strings.HasPrefix(ln, "\t") && !strings.HasPrefix(ln, "created by") {
+				frame = ln
+				break
+			}
+		}
+		if i := strings.LastIndex(frame, "/"); i >= 0 {
+			frame = frame[i+1:]
+		}
+		out = append(out, "["+g.State+"] "+frame)
+		if len(out) >= 4 {
+			break
+		}
+	}
+	return strings.Join(out, "; ")
+}
+
 // leakedCallSenders counts Start goroutines parked forever on `c.await <- result`:
 // calls that returned but were neither collected (Await) nor cancelled.
 func leakedCallSenders(gs []G) int {
